@@ -8,13 +8,13 @@ namespace Litep2pVerif.Chan
 
 /-- Operations of one open period (any order, any arguments = any schedule). -/
 inductive Op
-  | sync (m : Msg) | async (m : Msg) | admit (fuel : Nat) | poll | read (n : Nat) (frames : List (Nat × Nat))
+  | sync (m : Msg) | async (m : Msg) | letIn (fuel : Nat) | poll | read (n : Nat) (frames : List (Nat × Nat))
   | rsend (m : Msg) | rclose | close | user
 
 def apply (c : Chan) : Op → Chan
   | .sync m => (syncSend c m).1
   | .async m => (asyncSend c m).1
-  | .admit f => if c.alive then (admit c f).1 else c
+  | .letIn f => if c.alive then (letIn c f).1 else c
   | .poll => (taskPoll c).1
   | .read n fr => (remoteRead c n fr).getD c
   | .rsend m => { c with inQ := c.inQ ++ [m] }
@@ -33,12 +33,12 @@ structure Inv (c : Chan) : Prop where
 theorem prefix_drop {α} (a b c : List α) (h : a ++ b <+: c) : a <+: c :=
   (List.prefix_append a b).trans h
 
-theorem admit_inv (f : Nat) : ∀ c, Inv c → c.alive = true → Inv (admit c f).1 ∧ (admit c f).1.alive = true := by
+theorem letIn_inv (f : Nat) : ∀ c, Inv c → c.alive = true → Inv (letIn c f).1 ∧ (letIn c f).1.alive = true := by
   induction f with
   | zero => intro c h ha; exact ⟨h, ha⟩
   | succ n ih =>
     intro c h ha
-    simp only [admit]
+    simp only [letIn]
     split
     · exact ⟨h, ha⟩
     · split
@@ -122,10 +122,10 @@ theorem apply_inv (c : Chan) (op : Op) (h : Inv c) : Inv (apply c op) := by
         · have := h.aa hal
           exact ⟨h.s, h.sa, by simp [← this], fun _ => by simp [← this]⟩
         · exact ⟨h.s, h.sa, h.a, h.aa⟩
-  | admit f =>
+  | letIn f =>
     simp only [apply]
     split
-    · rename_i ha; exact (admit_inv f c h ha).1
+    · rename_i ha; exact (letIn_inv f c h ha).1
     · exact h
   | poll =>
     simp only [apply, taskPoll]
